@@ -21,6 +21,9 @@ type translator struct {
 	skipped map[string]bool // -skip names → seen
 	structs []*types.Named  // struct types the translated code mentions (filled by leanType)
 	counted map[ast.Stmt]*countedLoop
+	mutRec  map[*types.Named]bool // record types (structs of other packages) the translated code assigns through a pointer to
+	grand   *types.Var            // the package-level generator of math/rand, as a synthetic last parameter `grand_`
+	grandId *ast.Ident            // an identifier that resolves to it
 }
 
 type fn struct {
@@ -34,6 +37,10 @@ type fn struct {
 	effect    bool // result is in Outcome
 	fuel      bool // has a leading (fuel : Nat)
 	recursive bool
+	rng       bool  // creates a random generator: has a parameter (rand_ : Nat → Int), the generator's stream
+	storesRec bool  // it, or a function it calls, assigns to a field of a record through a pointer (`p.f = e`)
+	grand     bool  // it, or a function it calls, draws from math/rand's package-level generator (rand.Intn)
+	variadic  bool  // its last declared parameter is `vals ...T`
 	callees   []*fn // translated functions called, in order of first call
 }
 
@@ -99,9 +106,7 @@ func (t *translator) collect(f *ast.File) {
 		}
 		sig := obj.Type().(*types.Signature)
 		g := &fn{decl: fd, obj: obj, name: name, recv: sig.Recv(), mutParam: map[*types.Var]bool{}}
-		if sig.Variadic() {
-			t.fail(fd, "variadic function %s", name)
-		}
+		g.variadic = sig.Variadic() // the last parameter `vals ...T` is a slice parameter (never modified: checked)
 		for i := 0; i < sig.Params().Len(); i++ {
 			g.params = append(g.params, sig.Params().At(i))
 		}
@@ -215,6 +220,15 @@ func (t *translator) targets(n ast.Node) []target {
 					add(s.Args[0], true)
 				}
 			}
+			if x := t.randMethod(s); x != nil { // r.Intn(n) advances the generator r
+				add(x, true)
+			}
+			if t.isGlobalIntn(s) { // rand.Intn(n) advances the package-level generator
+				out = append(out, target{v: t.grand, elem: true})
+			}
+			if g := t.callee(s); g != nil && g.grand {
+				out = append(out, target{v: t.grand, elem: true})
+			}
 			if g := t.callee(s); g != nil {
 				if g.mutRecv {
 					if sel, ok := ast.Unparen(s.Fun).(*ast.SelectorExpr); ok {
@@ -236,13 +250,209 @@ func (t *translator) targets(n ast.Node) []target {
 	return out
 }
 
+// isRand: *math/rand.Rand — an opaque generator, translated to the value Go.Rand (stream + position) and
+// threaded through calls like a slice whose elements a callee modifies.
+func isRand(ty types.Type) bool {
+	p, ok := types.Unalias(ty).(*types.Pointer)
+	if !ok {
+		return false
+	}
+	n, ok := types.Unalias(p.Elem()).(*types.Named)
+	return ok && n.Obj().Pkg() != nil && n.Obj().Pkg().Path() == "math/rand" && n.Obj().Name() == "Rand"
+}
+
+// stdFunc: the function or method of a standard package that a call expression calls (nil if none).
+func (t *translator) stdFunc(call *ast.CallExpr) *types.Func {
+	sel, ok := ast.Unparen(call.Fun).(*ast.SelectorExpr)
+	if !ok {
+		return nil
+	}
+	f, _ := t.info.Uses[sel.Sel].(*types.Func)
+	if f == nil || f.Pkg() == nil || f.Pkg() == t.pkg {
+		return nil
+	}
+	return f
+}
+
+// randMethod: for a call `r.Intn(n)` on a variable r of type *rand.Rand, the expression r.
+func (t *translator) randMethod(call *ast.CallExpr) ast.Expr {
+	f := t.stdFunc(call)
+	if f == nil || f.Pkg().Path() != "math/rand" || f.Name() != "Intn" || len(call.Args) != 1 {
+		return nil
+	}
+	x := ast.Unparen(call.Fun).(*ast.SelectorExpr).X
+	if tv, ok := t.info.Types[x]; !ok || !isRand(tv.Type) {
+		return nil
+	}
+	return x
+}
+
+// isGlobalIntn: rand.Intn(n), the package-level function.  The first one seen creates the synthetic variable.
+func (t *translator) isGlobalIntn(call *ast.CallExpr) bool {
+	f := t.stdFunc(call)
+	if f == nil || f.Pkg().Path() != "math/rand" || f.Name() != "Intn" || len(call.Args) != 1 {
+		return false
+	}
+	if f.Type().(*types.Signature).Recv() != nil {
+		return false
+	}
+	if t.grand == nil {
+		r := f.Pkg().Scope().Lookup("Rand")
+		if r == nil {
+			return false
+		}
+		t.grand = types.NewVar(token.NoPos, t.pkg, "grand_", types.NewPointer(r.Type()))
+		t.grandId = ast.NewIdent("grand_")
+		t.info.Uses[t.grandId] = t.grand
+	}
+	return true
+}
+
+// isRandNew: rand.New(rand.NewSource(…))
+func (t *translator) isRandNew(call *ast.CallExpr) bool {
+	f := t.stdFunc(call)
+	if f == nil || f.Pkg().Path() != "math/rand" || f.Name() != "New" || len(call.Args) != 1 {
+		return false
+	}
+	if sig := f.Type().(*types.Signature); sig.Recv() != nil {
+		return false
+	}
+	in, ok := ast.Unparen(call.Args[0]).(*ast.CallExpr)
+	if !ok {
+		return false
+	}
+	g := t.stdFunc(in)
+	return g != nil && g.Pkg().Path() == "math/rand" && g.Name() == "NewSource" && len(in.Args) == 1
+}
+
+// isClockRead: time.Now().UnixNano() and the like — a chain of argument-less methods of time.Time on time.Now().
+func (t *translator) isClockRead(e ast.Expr) bool {
+	call, ok := ast.Unparen(e).(*ast.CallExpr)
+	if !ok || len(call.Args) != 0 {
+		return false
+	}
+	f := t.stdFunc(call)
+	if f == nil || f.Pkg().Path() != "time" {
+		return false
+	}
+	if f.Type().(*types.Signature).Recv() == nil {
+		return f.Name() == "Now"
+	}
+	return t.isClockRead(ast.Unparen(call.Fun).(*ast.SelectorExpr).X)
+}
+
+// storesThroughRecord: for an assignment target whose PATH (not its index operands, which are ordinary reads) goes
+// through a pointer to a record of another package — `h.kvs[i].Key` — that record type; nil otherwise.
+func (t *translator) storesThroughRecord(l ast.Expr) *types.Named {
+	for {
+		switch x := ast.Unparen(l).(type) {
+		case *ast.SelectorExpr:
+			if tv, ok := t.info.Types[x.X]; ok {
+				if r, isPtr := t.record(tv.Type); r != nil && isPtr {
+					return r.Origin()
+				}
+			}
+			l = x.X
+		case *ast.IndexExpr:
+			l = x.X
+		default:
+			return nil
+		}
+	}
+}
+
+// mentionsMutRec: values of type ty contain pointers to a mutable record type.
+func (t *translator) mentionsMutRec(ty types.Type) bool {
+	seen := map[types.Type]bool{}
+	var walk func(ty types.Type) bool
+	walk = func(ty types.Type) bool {
+		ty = types.Unalias(ty)
+		if seen[ty] {
+			return false
+		}
+		seen[ty] = true
+		switch u := ty.(type) {
+		case *types.Pointer:
+			return walk(u.Elem())
+		case *types.Slice:
+			return walk(u.Elem())
+		case *types.Named:
+			if t.mutRec[u.Origin()] {
+				return true
+			}
+			if st, ok := u.Underlying().(*types.Struct); ok && u.Obj().Pkg() == t.pkg {
+				for i := 0; i < st.NumFields(); i++ {
+					if walk(st.Field(i).Type()) {
+						return true
+					}
+				}
+			}
+		}
+		return false
+	}
+	return walk(ty)
+}
+
 func isSlice(ty types.Type) bool {
 	_, ok := ty.Underlying().(*types.Slice)
 	return ok
 }
 
+// isArray: a fixed-size array [N]T — a value type: reads and element stores are those of a slice, but nothing can
+// alias it (assignment and parameter passing copy it), so none of the aliasing rules apply.
+func isArray(ty types.Type) bool {
+	_, ok := ty.Underlying().(*types.Array)
+	return ok
+}
+
 // analyze computes mutation, loop kinds, purity, fuel and the definition order.
 func (t *translator) analyze() {
+	// 0. which record types are MUTABLE here: those with a store `p.f = e` through a pointer p to the record
+	t.mutRec = map[*types.Named]bool{}
+	for _, g := range t.order {
+		note := func(l ast.Expr) {
+			if r := t.storesThroughRecord(l); r != nil {
+				t.mutRec[r] = true
+				g.storesRec = true
+			}
+		}
+		ast.Inspect(g.decl.Body, func(n ast.Node) bool {
+			switch s := n.(type) {
+			case *ast.AssignStmt:
+				if s.Tok != token.DEFINE {
+					for _, l := range s.Lhs {
+						note(l)
+					}
+				}
+			case *ast.IncDecStmt:
+				note(s.X)
+			}
+			return true
+		})
+	}
+	// 0b. which functions draw from math/rand's package-level generator: they get it as a last, in-out parameter
+	for changed := true; changed; {
+		changed = false
+		for _, g := range t.order {
+			if g.grand {
+				continue
+			}
+			ast.Inspect(g.decl.Body, func(n ast.Node) bool {
+				if call, ok := n.(*ast.CallExpr); ok {
+					if h := t.callee(call); t.isGlobalIntn(call) || (h != nil && h.grand) {
+						g.grand = true
+					}
+				}
+				return !g.grand
+			})
+			changed = changed || g.grand
+		}
+	}
+	for _, g := range t.order {
+		if g.grand {
+			g.params = append(g.params, t.grand)
+		}
+	}
 	// 1. what each function mutates (fixpoint: mutation propagates from callee to caller)
 	for changed := true; changed; {
 		changed = false
@@ -252,10 +462,18 @@ func (t *translator) analyze() {
 					g.mutRecv, changed = true, true
 				}
 				for _, p := range g.params {
-					if tg.v == p && tg.elem && isSlice(p.Type()) && !g.mutParam[p] {
+					if tg.v == p && tg.elem && (isSlice(p.Type()) || isRand(p.Type())) && !g.mutParam[p] {
 						g.mutParam[p], changed = true, true
 					}
 				}
+			}
+		}
+	}
+	for _, g := range t.order {
+		if g.variadic {
+			nd := g.obj.Type().(*types.Signature).Params().Len()
+			if g.mutParam[g.params[nd-1]] {
+				t.fail(g.decl, "%s assigns to the elements of its variadic parameter (visible to the caller only for a `xs...` call)", g.name)
 			}
 		}
 	}
@@ -298,6 +516,9 @@ func (t *translator) analyze() {
 				if (s.Op == token.QUO || s.Op == token.REM) && !t.nonZeroConst(s.Y) {
 					g.effect = true
 				}
+				if (s.Op == token.SHL || s.Op == token.SHR) && t.info.Types[s.Y].Value == nil {
+					g.effect = true // a shift by a variable count can panic (negative count)
+				}
 			case *ast.AssignStmt:
 				if (s.Tok == token.QUO_ASSIGN || s.Tok == token.REM_ASSIGN) && !t.nonZeroConst(s.Rhs[0]) {
 					g.effect = true
@@ -307,6 +528,15 @@ func (t *translator) analyze() {
 					if _, isBuiltin := t.info.Uses[id].(*types.Builtin); isBuiltin && id.Name == "make" {
 						g.effect = true
 					}
+				}
+				if t.randMethod(s) != nil || t.isGlobalIntn(s) {
+					g.effect = true
+				}
+				if t.isRandNew(s) {
+					if g.rng {
+						t.fail(s, "a second random generator in one function")
+					}
+					g.rng = true
 				}
 				if h := t.callee(s); h != nil {
 					if h == g {
@@ -320,6 +550,13 @@ func (t *translator) analyze() {
 			return true
 		})
 	}
+	for _, g := range t.order {
+		for _, h := range g.callees {
+			if h.rng {
+				t.fail(g.decl, "call of %s, which creates a random generator (its stream parameter would have to be split)", h.name)
+			}
+		}
+	}
 	for changed := true; changed; {
 		changed = false
 		for _, g := range t.order {
@@ -329,6 +566,9 @@ func (t *translator) analyze() {
 				}
 				if h.fuel && !g.fuel {
 					g.fuel, g.effect, changed = true, true, true
+				}
+				if h.storesRec && !g.storesRec {
+					g.storesRec, changed = true, true
 				}
 			}
 		}
@@ -397,6 +637,17 @@ func (t *translator) invariantIn(e ast.Expr, assigned []target) bool {
 			if !isPath || conflict(r, underLen) {
 				ok = false
 			}
+		case *ast.IndexExpr: // s[i]: nothing in the body may store into s (not even an element) or assign i
+			r, isPath := t.root(x)
+			if !isPath || conflict(target{v: r.v, field: r.field}, false) {
+				ok = false
+			}
+			for _, a := range assigned {
+				if a.v == r.v && (a.field == r.field || a.field == "" || a.field == "*" || r.field == "") {
+					ok = false // an element store `s[j] = …` could be to s[i] itself
+				}
+			}
+			walk(x.Index, false)
 		case *ast.BinaryExpr:
 			walk(x.X, false)
 			walk(x.Y, false)
